@@ -29,6 +29,7 @@ def main(tier):
     chk.run("R-ATTRTABLE", V.attrtable, r, floor=80)
     chk.run("R-ATTRVALUES", V.attrvalues, r, floor=4)
     chk.run("R-BYTEORDERREQ", V.byteorderreq, r, floor=29)
+    chk.run("R-PHYSREQ", V.physreq, r, s, cx.sites, floor=2)
     chk.run("R-VALIDATORS", P.validators, r, floor=40)
     chk.run("R-NAMEDKINDS", P.namedkinds, r, s, cx.sites, floor=10)
     chk.run("R-INCIDENTAL-PURE", T.incidental_pure, r, s, cx.sites, floor=8)
